@@ -226,6 +226,17 @@ func checkC13(c C13Case, o *Obs) (err error) {
 }
 
 func exhaustiveC13(thorough bool, emit func(C13Case) bool) {
+	// Ntoi and Iton first, before anything else in this process has used the package (tables
+	// built on first use must be built for them too).
+	{
+		all := make([]byte, 256)
+		for i := range all {
+			all[i] = byte(i)
+		}
+		if !emit(C13Case{Kind: "ntoi", Data: all}) {
+			return
+		}
+	}
 	// Real-data-shaped DNA (homopolymer runs at every alignment, microsatellites, poly-A tails,
 	// mixed case) of every length up to 300 and on the size ladder, and its packed form.
 	for n := 1; n <= 300; n++ {
